@@ -94,7 +94,9 @@ def declare2(S: Spec):
                                           " old(Score(c)) >= Score(s)) for s in self.active_containers) for c in self.active_containers)"),
                   ("never-chosen", "C11| all(implies(old(c._current_memory) <= 0 or old(c._completed), c._completed == old(c._completed)) for c in self.active_containers)"),
                   ("list-kept", "seq(self.active_containers) == old(seq(self.active_containers))"),
-                  ("only-own-operators", "all(state(o) == old(state(o)) for o in every('Operator') if not OwnOp(self, o))")],
+                  ("only-own-operators", "all(state(o) == old(state(o)) for o in every('Operator') if not OwnOp(self, o))"),
+                  ("only-own-containers", "all(c._completed == old(c._completed) and c.error == old(c.error) and c._current_memory == old(c._current_memory)"
+                                          " for c in every('Container') if old(allocated(c)) and c not in self.active_containers)")],
          modifies=KILL_MOD,
          locals={"scored": List(Tuple(REAL, Ref("Container")))},
          loops={0: dict(idx="k", header="for c in self.active_containers",
@@ -165,13 +167,24 @@ def declare3(S: Spec):
            " and unfmt('c{}', 0, c.container_id) < Container.next_container_num for c in s)"
            " and all(all(implies(c1.container_id == c2.container_id, c1 is c2) for c2 in s) for c1 in s)")
 
-    CTX = ["GI1()", "ListsOK(self)", "LiveDisjoint(self)", "IdsOK(seq(self.active_containers))", "self.ticks_per_second >= 1"]
+    # operators this pool may touch in one tick: those of its live containers and of the batch it is handed
+    S.pred("Touched", [("p", Ref("ResourcePool")), ("asg", SeqV(Ref("Assignment"))), ("o", Ref("Operator"))],
+           "any(o in c.assignment.ops for c in old(seq(p.active_containers)))"
+           " or any(o in c.assignment.ops for c in old(seq(p.suspending_containers)))"
+           " or any(o in a.ops for a in asg)")
+    UNTOUCHED = "all(state(o) == old(state(o)) for o in every('Operator') if not Touched(self, seq(assignments), o))"
+    ORIGIN = ("all(c in old(seq(self.active_containers)) or c in old(seq(self.suspending_containers)) or c.assignment in assignments"
+              " for c in self.active_containers) and "
+              "all(c in old(seq(self.active_containers)) or c in old(seq(self.suspending_containers)) or c.assignment in assignments"
+              " for c in self.suspending_containers)")
+    CTX = ["GI1()", ORIGIN, UNTOUCHED, "Container.next_container_num >= old(Container.next_container_num)", "ListsOK(self)", "LiveDisjoint(self)", "IdsOK(seq(self.active_containers))", "self.ticks_per_second >= 1"]
     ACT0 = "all(ActiveOK(self, c) for c in self.active_containers)"
     ACT = "all(ActiveOK(self, c) and c._current_memory <= c.assignment.ram for c in self.active_containers)"
     ACT_LIVE = "all(not c._completed for c in self.active_containers)"
     SUS = "all(SuspOK(self, c) for c in self.suspending_containers)"
     USAGE = "self.consumed_ram_gb == Sum(self.active_containers, 'Container._current_memory')"
 
+    NEG = "self.avail_cpu_pool >= 0 and implies(not self.allow_memory_overcommit, self.avail_ram_pool >= 0)"
     S.fn(f"{MR}:ResourcePool.run_one_tick", owners=["C03", "C04", "C09", "C10"],
          params={"suspensions": List(Ref("Suspend")), "assignments": List(Ref("Assignment"))},
          returns=List(Ref("ExecutionResult")),
@@ -183,15 +196,17 @@ def declare3(S: Spec):
                   ("active-ok", "all(ActiveOK(self, c) and not c._completed and c._current_memory <= c.assignment.ram for c in self.active_containers)"),
                   ("suspending-ok", "all(SuspOK(self, c) for c in self.suspending_containers)"),
                   ("I1", "GI1()"), ("ids-ok", "IdsOK(seq(self.active_containers))"),
+                  ("only-own-operators", "C02,C09| " + UNTOUCHED),
+                  ("id-counter-monotone", "Container.next_container_num >= old(Container.next_container_num)"),
                   ("pool-invariant", "PoolInv(self)"),
                   ("memory-limits", "C04| all(c._current_memory <= c.assignment.ram for c in self.active_containers)"),
                   ("usage-truthful", "C04| " + USAGE),
                   ("fits-or-idle", "C04| self.consumed_ram_gb <= self.max_ram_pool or all(c._current_memory <= 0 for c in self.active_containers)")],
          raises={"AssertionError": ["GI1()"], "AttributeError": ["GI1()"]},
-         modifies=["star('dv:Operator:OperatorState')", "star('dv:OperatorState:int')",
-                   "star('fld:Container._current_memory')", "star('fld:Container._completed')", "star('fld:Container.error')",
-                   "star('fld:Container._can_suspend')", "star('fld:Container._current_op_idx')", "star('fld:Container._ticks_elapsed')",
-                   "star('fld:Container.suspend_ticks')", "star('fld:Container._suspend_ticks_left')",
+         modifies=["star('dv:Operator:OperatorState')", "star('dv:OperatorState:int')"] +
+                  [f"(c.{f} for c in every('Container') if c.pool is self)" for f in
+                   ("_current_memory", "_completed", "error", "_can_suspend", "_current_op_idx", "_ticks_elapsed",
+                    "suspend_ticks", "_suspend_ticks_left")] + [
                    "contents(self.active_containers)", "contents(self.suspending_containers)", "contents(self.suspended_containers)",
                    "contents(self.container_tick_times)",
                    "self.avail_cpu_pool", "self.avail_ram_pool", "self.consumed_ram_gb", "self.num_completed", "self.i",
@@ -233,9 +248,13 @@ def declare3(S: Spec):
                           "self.avail_ram_pool + Sum(self.active_containers, 'ramC') + Sum(self.suspending_containers, 'ramC')"
                           " - Sum(drop(to_remove, k), 'ramC') == self.max_ram_pool"]),
              4: dict(idx="k", header="for c in self.active_containers",
+                     cut=CTX + [ACT, ACT_LIVE, SUS, USAGE, "Conserved(self)", NEG, "len(results) == 0"],
                      inv=CTX + [ACT0, SUS, USAGE, "Conserved(self)", "k <= len(self.active_containers)",
                                 "all(not self.active_containers[j]._completed for j in range(k, len(self.active_containers)))"]),
              5: dict(idx="k", header="for c in self.active_containers",
+                     cut=CTX + [ACT, SUS, USAGE, "Conserved(self)", NEG, "len(results) == 0", "len(to_remove) == 0",
+                                "all(c._current_memory <= c.assignment.ram for c in self.active_containers)",
+                                "self.consumed_ram_gb <= self.max_ram_pool or all(c._current_memory <= 0 for c in self.active_containers)"],
                      inv=CTX + [ACT, SUS, USAGE, "k <= len(self.active_containers)",
                                 "all(c._current_memory <= c.assignment.ram for c in self.active_containers)",
                                 "self.consumed_ram_gb <= self.max_ram_pool or all(c._current_memory <= 0 for c in self.active_containers)",
